@@ -183,6 +183,9 @@ Fillers == {
   F("blk_then_eol", "lc", " /* c1 */ # c2\n"),
   F("own_blk_then_eol", "lc", "\n/* c1 */ # c2\n"),
   F("inline", "ic", " /* c1 */ "),
+  F("glued", "ic", "/* c1 */"),
+  F("glued_left", "ic", "/* c1 */ "),
+  F("glued_right", "ic", " /* c1 */"),
   F("blk_empty", "ic", " /**/ "),
   F("doc_empty_own", "lc", "\n/***/\n"),
   F("inline2", "ic", " /* c1 */ /* c2 */ "),
